@@ -35,7 +35,12 @@ def load(reg):
                           # every other key untouched (equality of the whole map)
                           "mapeq(self._listeners, ite(has(%s, %s),"
                           "   ite(contains(get(%s, %s), %s), %s, map_put(%s, %s, get(%s, %s) + [%s])),"
-                          "   map_put(%s, %s, [%s])))" % (L0, ET, L0, ET, LS, L0, L0, ET, L0, ET, LS, L0, ET, LS)],
+                          "   map_put(%s, %s, [%s])))" % (L0, ET, L0, ET, LS, L0, L0, ET, L0, ET, LS, L0, ET, LS),
+                          # (consequences of the whole-map clause, stated for clients: the listener is now subscribed to the
+                          # type, subscriptions of every other type are untouched)
+                          "has(self._listeners, %s) and contains(get(self._listeners, %s), %s)" % (ET, ET, LS),
+                          "forall('k:ref:EventType', implies(k != %s, has(self._listeners, k) == has(%s, k)"
+                          " and implies(has(%s, k), get(self._listeners, k) == get(%s, k))))" % (ET, L0, L0, L0)],
                  labels={"PWF(self)": "PWF"},
                  modifies=["self._listeners"], props=C08, axiom_sets=AX)
     RM_RESULT = ("ite(has(%s, %s) and contains(get(%s, %s), %s),"
